@@ -131,6 +131,12 @@ def swarm(rng, profile_name):
         knobs[k] = rng.choice(choices)
     lo, hi = p["steps"]
     steps = rng.randint(lo, hi)
+    if rng.random() < 0.015 and profile_name in ("alias", "shape", "dtype", "fingerprint", "derive", "lifetime"):
+        # a few runs cross the library's size-dependent branches (len > 1000): few objects, few steps
+        knobs["len"] = (1001, 1003)
+        knobs["p_empty"] = 0.0
+        knobs["max_objs"] = 3
+        steps = min(steps, 14)
     vid = None
     if p.get("vid"):
         vid = rng.choice(p["vid"])
